@@ -554,6 +554,10 @@ class Engine:
             return cont.contains(self, item)
         if isinstance(cont, HMap) and cont.contains is not None:
             return cont.contains(item)
+        if isinstance(cont, Seq):
+            j = z3.Int("cj!%d" % id(cont))
+            r = self.equal(cont.elem(j), item)
+            return z3.Exists([j], z3.And(j >= 0, j < cont.ln, z3.BoolVal(r) if isinstance(r, bool) else r))
         if isinstance(cont, HavocDict):
             if not is_sym(item) and dict.__contains__(cont, item):
                 return True
@@ -666,7 +670,7 @@ class Engine:
                 f = getattr(base, attr)
                 return Builtin("str." + attr, lambda e, *a: f(*a))
         if isinstance(base, (dict, list, set)):
-            if attr in ("keys", "values", "items", "get", "copy", "index", "count", "tolist") or attr in MUTATORS:
+            if (attr in ("keys", "values", "items", "get", "copy", "index", "count", "tolist") or attr in MUTATORS) and hasattr(base, attr):
                 f = getattr(base, attr)
                 def call(e, *a, _f=f, _attr=attr, _base=base, **k):
                     if _attr in MUTATORS:
@@ -706,6 +710,9 @@ class Engine:
             st = self.ev(x.slice.step) if x.slice.step else None
             if isinstance(base, Seq) and lo is None and hi is None and st == -1:
                 return Seq(base.ln, lambda j, b=base: b.elem(b.ln - 1 - j), base.label)
+            if isinstance(base, Seq) and lo is None and st is None and hi is not None:
+                hz = to_z(hi)
+                return Seq(z3.If(hz < 0, z3.IntVal(0), z3.If(hz < base.ln, hz, base.ln)), base.elem, base.label)
             if isinstance(base, (list, tuple, str)) and all(v is None or isinstance(v, int) for v in (lo, hi, st)):
                 return base[lo:hi:st]
             if is_sym(base) and base.sort == "name" and self.opaque_slice is not None:
@@ -715,10 +722,10 @@ class Engine:
 
     def getitem(self, base, idx, node=None):
         if isinstance(base, HMap):
-            return base.get(idx)
+            return self._model_call(base.get, idx)
         if isinstance(base, Opaque):
             if base.getitem is None: raise Unsupported("subscript of opaque " + base.tag)
-            return base.getitem(self, idx)
+            return self._model_call(base.getitem, self, idx)
         if isinstance(base, FiltSeq):
             if not (isinstance(idx, int) and idx == 0): raise Unsupported("FiltSeq[%r]" % (idx,))
             j = z3.Int("fj!%d" % id(base))
@@ -788,11 +795,10 @@ class Engine:
         fr = self.frames[-1]
         if isinstance(it, AccList):
             return AccList(it.name + "#" + ast.unparse(x) + "#%d" % len(it.items))
-        if isinstance(it, Seq) and g.ifs and kind == "list" and isinstance(x.elt, ast.Name) and isinstance(g.target, ast.Name) and x.elt.id == g.target.id:
+        if isinstance(it, Seq) and g.ifs and kind == "list":
             saved = dict(fr.locals)
             def pred(j, it=it, g=g, saved=saved, fr=fr):
                 self.frames.append(Frame(fr.module, fr.cls, dict(saved), fr.fn))
-                npc, nlog = len(self.pc), None
                 try:
                     self.assign(g.target, it.elem(j))
                     cs = []
@@ -802,7 +808,14 @@ class Engine:
                     return z3.And(*cs)
                 finally:
                     self.frames.pop()
-            return FiltSeq(it, pred)
+            def elem(j, it=it, g=g, x=x, saved=saved, fr=fr):
+                self.frames.append(Frame(fr.module, fr.cls, dict(saved), fr.fn))
+                try:
+                    self.assign(g.target, it.elem(j))
+                    return self.ev(x.elt)
+                finally:
+                    self.frames.pop()
+            return FiltSeq(Seq(it.ln, elem), pred)
         if isinstance(it, Seq):
             if g.ifs or kind != "list": raise Unsupported("filtered comprehension over symbolic sequence")
             saved = dict(fr.locals)
@@ -863,9 +876,17 @@ class Engine:
                 kwargs[k.arg] = self.ev(k.value)
         return self.call_value(f, args, kwargs, x)
 
+    def _model_call(self, fn, *a, **k):
+        """a side-car model (heap map, opaque method, builtin stub) that has no answer for this use means the code left the
+        modelled subset: UNDECIDED, never a crash of the checker"""
+        try:
+            return fn(*a, **k)
+        except (KeyError, IndexError, TypeError, AttributeError, AssertionError, NotImplementedError) as ex:
+            raise Unsupported("side-car model has no answer: %s: %s" % (type(ex).__name__, str(ex)[:80]))
+
     def call_value(self, f, args, kwargs, node):
         if isinstance(f, Builtin):
-            return f.fn(self, *args, **kwargs)
+            return self._model_call(f.fn, self, *args, **kwargs)
         if isinstance(f, FuncRef):
             return self._invoke(f.module, None, f.node, f.qual, None, args, kwargs)
         if isinstance(f, BoundMethod):
@@ -1181,6 +1202,7 @@ class Engine:
         if spec.heap_havoc is not None:
             spec.heap_havoc(self)
         if alt == 0:        # arbitrary iteration
+            self.path_extra["iterating"] = spec.name
             if seq is not None:
                 self.assume(z3.And(k >= 0, k < seq.ln))
                 self.assume(spec.inv(loc, k))
@@ -1263,7 +1285,8 @@ class Engine:
                     if h.type is None: names = None
                     elif isinstance(h.type, ast.Tuple): names = [ast.unparse(t) for t in h.type.elts]
                     else: names = [ast.unparse(h.type)]
-                    if names is None or e.etype in names or "Exception" in names or "BaseException" in names:
+                    base_only = e.etype in ("KeyboardInterrupt", "SystemExit", "GeneratorExit", "BaseException")
+                    if names is None or e.etype in names or ("Exception" in names and not base_only) or "BaseException" in names:
                         if h.name: self.frames[-1].locals[h.name] = Opaque("exc:" + e.etype)
                         self.exec_block(h.body)
                         break
@@ -1292,8 +1315,12 @@ class Engine:
             if is_sym(x): return False     # reals are never NaN; NaN only enters through the assumed interpolator contract
             if isinstance(x, Opaque) and x.tag == "maybe_nan": return SV(x.attrs["is_nan"], "bool")
             return x != x
+        def isclose(e, a, b, rtol=1e-05, atol=1e-08, **k):
+            za, zb = to_z(a, "real"), to_z(b, "real")
+            d = za - zb
+            return SV(z3.If(d >= 0, d, -d) <= to_z(atol, "real") + to_z(rtol, "real") * z3.If(zb >= 0, zb, -zb), "bool")
         def array(e, x, **k): return x
-        return Opaque("np", methods={"sign": sign, "abs": abs_, "isnan": isnan, "array": array, "asarray": array})
+        return Opaque("np", methods={"sign": sign, "abs": abs_, "isnan": isnan, "array": array, "asarray": array, "isclose": isclose})
 
 
 _MISSING = object()
@@ -1475,7 +1502,7 @@ BUILTINS = {
     "sum": Builtin("sum", _b_sum), "list": Builtin("list", _b_list), "range": Builtin("range", _b_range), "set": Builtin("set", _b_set),
     "tuple": Builtin("tuple", lambda e, x=(): tuple(e.iterate(x))), "dict": Builtin("dict", lambda e, x=None, **k: dict(x or {}, **k)),
     "zip": Builtin("zip", lambda e, *a: list(zip(*[e.iterate(x) for x in a]))),
-    "enumerate": Builtin("enumerate", lambda e, x, start=0: list(enumerate(e.iterate(x), start))),
+    "enumerate": Builtin("enumerate", lambda e, x, start=0: (Seq(x.ln, lambda j, x=x, start=start: (SV(j + start, "int"), x.elem(j))) if isinstance(x, Seq) else list(enumerate(e.iterate(x), start)))),
     "reversed": Builtin("reversed", lambda e, x: list(reversed(e.iterate(x)))),
     "sorted": Builtin("sorted", lambda e, x: sorted(e.iterate(x))),
     "str": Builtin("str", lambda e, x="": str(x) if not is_sym(x) else "<fmt>"),
